@@ -97,6 +97,11 @@ def build(case, given=None, extra=True, defaults_distinct=False):
             schema[name] = {'*': {x['v'][1]: {'_default': 0, '_emit': True} for x in pvars}}
         if port['t'] == 'path':
             topo[name] = tuple(port['p'])
+        elif port['t'] == 'gdict':
+            d = {'_path': tuple(port['p'])}
+            for child, p in seq(port['sub']):
+                d[child] = tuple(p)
+            topo[name] = {'*': d}
         else:
             d = {}
             if port['hasp']:
